@@ -3,6 +3,7 @@ get_info / get_conf return, as single-step vectors decided by
 spec/KvLineTrace.tla."""
 import itertools
 import random
+import re
 
 import cc                                             # noqa: F401 (sets sys.path, log sink)
 from twisted.internet import error           # noqa: E402
@@ -104,10 +105,46 @@ def setconf_vector(args, keysok, ctx="idle"):
         fired = []
     if fired and isinstance(fired[0], failure.Failure):
         err = True
-    wrote = extra + tr.value()
-    pairs = [[b(str(args[i])), b(str(args[i + 1]))] for i in range(0, len(args) - 1, 2)]
-    return dict(p="C12", pairs=pairs, keysok=keysok, wrote=list(wrote), err=err,
-                args=[repr(a) for a in args], ctx=ctx)
+    wrote, wruns = shorten(extra + tr.value())
+    pairs, lruns = [], []
+    for i in range(0, len(args) - 1, 2):
+        k, r1 = shorten(str(args[i]).encode("latin-1"))
+        v, r2 = shorten(str(args[i + 1]).encode("latin-1"))
+        pairs.append([list(k), list(v)])
+        lruns += r1 + r2
+    return dict(p="C12", pairs=pairs, keysok=keysok, wrote=list(wrote), err=err, lruns=lruns, wruns=wruns,
+                args=[enc_arg(a) for a in args], ctx=ctx)
+
+
+FILLER = b"Z"
+_LONG = re.compile(b"Z{1024,}")
+
+
+def shorten(data):
+    """every run of 1024 or more filler bytes becomes four of them; the lengths of the runs are returned in order.  The
+    same function is applied to what was asked for and to what was written (KvLine_MC!RunBlind: the grammar is blind to
+    the length of such a run), so that a command line of megabytes stays within reach of the TLA+ parser"""
+    runs = []
+
+    def cut(m):
+        runs.append(len(m.group()))
+        return FILLER * 4
+    return _LONG.sub(cut, data), runs
+
+
+def enc_arg(a):
+    """repr() of an argument; a long string as its run-length encoding (the replay file stays small)"""
+    if isinstance(a, str) and len(a) > 1000:
+        return repr(("rle", [(ch, len(list(g))) for ch, g in itertools.groupby(a)]))
+    return repr(a)
+
+
+def dec_arg(text):
+    import ast
+    a = ast.literal_eval(text)
+    if isinstance(a, tuple) and len(a) == 2 and a[0] == "rle":
+        return "".join(ch * n for ch, n in a[1])
+    return a
 
 
 def _deliver(proto, data, seg, rng):
